@@ -8,32 +8,42 @@ Local Open Scope N_scope.
 Section RequestFacts.
   Variables Routing Store Other Addr : Type.
   Notation state := (node_state Routing Store Other Addr).
-  Variable contact_of : state -> Addr -> rawmsg -> option Addr.
+  Variable usable : Addr -> bool.
   Variable note_request : Other -> Addr -> Other.
   Variable error_reply : Other -> Addr -> rawmsg -> Other.
   Variable serve : state -> Addr -> rawmsg -> state.
   Variable process_other : state -> Addr -> rawmsg -> state.
 
-  Let handle := handle_request Routing Store Other Addr contact_of note_request error_reply serve.
-  Let receive := node_receive Routing Store Other Addr contact_of note_request error_reply serve process_other.
+  Let handle := handle_request Routing Store Other Addr usable note_request error_reply serve.
+  Let receive := node_receive Routing Store Other Addr usable note_request error_reply serve process_other.
 
-  (* a request that is not valid is either ignored (no usable contact) or answered with an error: one failure
-     for the contact; routing table (with its queues) and data store are those of before *)
+  (* a request that is not valid is answered with an error (or, from an address that cannot be a contact, not at
+     all): EXACTLY one failure for the datagram's sender; routing table (with its queues) and data store are those
+     of before *)
   Lemma invalid_request_effect own st sender m :
     request_valid own m = false ->
     let st' := handle own st sender m in
     routing _ _ _ _ st' = routing _ _ _ _ st /\ store _ _ _ _ st' = store _ _ _ _ st
-    /\ (failures _ _ _ _ st' = failures _ _ _ _ st \/ exists c, failures _ _ _ _ st' = c :: failures _ _ _ _ st).
+    /\ failures _ _ _ _ st' = sender :: failures _ _ _ _ st.
   Proof.
-    intro H. unfold handle, handle_request. destruct (contact_of st sender m) as [c|].
-    - rewrite H. cbn. split; [reflexivity|]. split; [reflexivity|]. right. exists c. reflexivity.
-    - cbn. split; [reflexivity|]. split; [reflexivity|]. left. reflexivity.
+    intro H. unfold handle, handle_request. destruct (usable sender); cbn [negb].
+    - rewrite H. cbn. repeat split.
+    - cbn. repeat split.
   Qed.
+
+  (* a request from an address that cannot be a contact is never served, valid or not: one failure, nothing else *)
+  Lemma unusable_sender_effect own st sender m :
+    usable sender = false ->
+    let st' := handle own st sender m in
+    routing _ _ _ _ st' = routing _ _ _ _ st /\ store _ _ _ _ st' = store _ _ _ _ st
+    /\ failures _ _ _ _ st' = sender :: failures _ _ _ _ st.
+  Proof. intro H. unfold handle, handle_request. rewrite H. cbn. repeat split. Qed.
 
   Definition is_request (m : rawmsg) : bool := match m with RReq _ _ _ _ => true | _ => false end.
 
   (* for ALL byte strings: a datagram that cannot be decoded, or that decodes to a request that is not a valid
-     protocol request, never changes the routing table (with its queues) or the data store *)
+     protocol request, never changes the routing table (with its queues) or the data store and records exactly
+     one failure for the address it came from *)
   Theorem not_a_valid_request_leaves_routing own fuel st sender data :
     match decode_datagram fuel data with
     | inr _ => True
@@ -41,13 +51,13 @@ Section RequestFacts.
     end ->
     let st' := receive own fuel st sender data in
     routing _ _ _ _ st' = routing _ _ _ _ st /\ store _ _ _ _ st' = store _ _ _ _ st
-    /\ (failures _ _ _ _ st' = failures _ _ _ _ st \/ exists c, failures _ _ _ _ st' = c :: failures _ _ _ _ st).
+    /\ failures _ _ _ _ st' = sender :: failures _ _ _ _ st.
   Proof.
     intro H. unfold receive, node_receive, datagram_received.
     destruct (decode_datagram fuel data) as [m|e].
     - destruct H as [Hr Hv]. destruct m; try discriminate.
       cbn [process_message]. apply invalid_request_effect. exact Hv.
-    - cbn. split; [reflexivity|]. split; [reflexivity|]. right. exists sender. reflexivity.
+    - cbn. repeat split.
   Qed.
 End RequestFacts.
 
@@ -93,7 +103,7 @@ Qed.
 Definition request_servable (r : request) : Prop :=
   match r with
   | Ping => True
-  | Store h _ p => blen h = 48 /\ (0 < p < 65535)%Z
+  | Store h _ p => blen h = 48 /\ (1024 <= p <= 65535)%Z
   | FindNode k => blen k = 48
   | FindValue k _ => blen k = 48
   end.
@@ -109,7 +119,7 @@ Proof.
   - destruct Hr as [Hh Hp].
     replace (bytes_eqb s_store s_ping) with false by (vm_compute; reflexivity). rewrite bytes_eqb_refl.
     cbn [removelast nth length hash_key_ok rpc_port_ok]. unfold HASH_LENGTH. rewrite Hh.
-    replace ((0 <? p) && (p <? 65535))%Z with true by (symmetry; apply andb_true_iff; split; apply Z.ltb_lt; lia).
+    replace ((1024 <=? p) && (p <=? 65535))%Z with true by (symmetry; apply andb_true_iff; split; apply Z.leb_le; lia).
     reflexivity.
   - replace (bytes_eqb s_findNode s_ping) with false by (vm_compute; reflexivity).
     replace (bytes_eqb s_findNode s_store) with false by (vm_compute; reflexivity). rewrite bytes_eqb_refl.
